@@ -51,7 +51,7 @@ pub fn scenarios(tier: Tier, corpus: &Corpus) -> Vec<Scenario> {
 	// forwarding states incl. async persistence (updates blocked / in flight)
 	for s in c02::scenarios(tier, "C02").into_iter().filter(|s| s.name.contains("reorder") || s.name.contains("async") || s.name.contains("two-forwards")) {
 		let mut s = s.clone();
-		if !th && s.name.contains("reorder") {
+		if !th && (s.name.contains("reorder") || s.name.contains("cross-async")) {
 			s.k = 1;
 		}
 		if !th && s.name.contains("claim-async") {
